@@ -341,3 +341,83 @@ Theorem C14_conf_of_ir :
       = Some rest.
 Proof. exact ConformsTokens.conf_of_conforms. Qed.
 Print Assumptions C14_conf_of_ir.
+
+(** the model never prints the empty string literal, provided no literal path contains that token
+    ([literal_paths_plainb r s]: for every position [i], [path_omit_generics r s i = Ok p] implies
+    [""] is not among [p]; path tokens are identifiers and punctuation in practice) *)
+Theorem C14_example_no_empty_literal :
+  forall (r : registry) (s : settings),
+    ConformsTokens.literal_paths_plainb r s = true ->
+    forall (id : N) (ws : words) (ts : tokens),
+      example_rust r s id ws = XOk ts -> ~ In ConformsTokens.empty_str_lit ts.
+Proof. exact ConformsTokens.example_no_empty_lit. Qed.
+Print Assumptions C14_example_no_empty_literal.
+
+(** ** C14_conforms_tokens: every Ok example of the model is accepted by the token-level reader run on
+    the parse of the model's own emission and on the model's resolved paths
+    ([C14_conforms] + [C14_conformsb_of_ir] + [C02_emit_parses] + [C14_example_no_empty_literal]).
+    With the run-time [corr_example] (observed example tokens = model tokens), [corr_gen] (observed
+    module tokens = model tokens) and [corr_paths] (observed paths = model paths) this makes the
+    verdict of [prop_conforms] on a case inside the scope a consequence of theorems about the model.
+    Quantifier: every registry, settings, [types_equal] oracle, id, word list such that the module
+    is generated, same-path entries have equal skeletons (excludes F15), the reader scope and
+    [literal_paths_plainb] hold, the items are plain (scope of [C02_emit_parses]) and emission succeeds. *)
+Theorem C14_conforms_tokens :
+  forall (r : registry) (s : settings) (teq : N -> N -> result bool) (m : items) (toks : tokens),
+    generate r s teq = Ok m -> skeleton_consistent r s ->
+    ConformsTokens.reader_scopeb r s m = true ->
+    ConformsTokens.literal_paths_plainb r s = true ->
+    Unparse.items_plain s m = true -> Emit.emit_module s m = Ok toks ->
+    forall (id : N) (ws : words) (ts : tokens),
+      example_rust r s id ws = XOk ts ->
+      RunC14.conformsb r (s_root s) (Parse.parse_module toks) (ConformsTokens.model_paths r s) id ts = true.
+Proof. exact ConformsTokens.conforms_tokens_full. Qed.
+Print Assumptions C14_conforms_tokens.
+
+(** non-vacuity: all hypotheses hold on the registry of Proofs/ConformsExamples.v (unit struct and
+    named struct with an unused parameter, enum, 1-tuple, arrays, Compact field, sequence, prelude
+    [Option]); Proofs/ConformsTokensExamples.v also evaluates the reader on the parse of the emitted
+    tokens for all 14 examples ([cdemo_all_read]) and on corrupted examples ([cdemo_corrupted]) *)
+Theorem C14_conforms_tokens_nonvacuous :
+  exists (r : registry) (s : settings) (m : items) (toks : tokens) (id : N) (ws : words) (ts : tokens),
+    generate r s (types_equal r) = Ok m /\ skeleton_consistent r s /\
+    ConformsTokens.reader_scopeb r s m = true /\
+    ConformsTokens.literal_paths_plainb r s = true /\
+    Unparse.items_plain s m = true /\ Emit.emit_module s m = Ok toks /\
+    example_rust r s id ws = XOk ts /\ In "PhantomData"%string ts /\
+    RunC14.conformsb r (s_root s) (Parse.parse_module toks) (ConformsTokens.model_paths r s) id ts = true.
+Proof. exact ConformsTokensExamples.conforms_tokens_nonvacuous. Qed.
+Print Assumptions C14_conforms_tokens_nonvacuous.
+
+(** the clauses of the scope / the token condition cannot be dropped: (1) [Cow<Cow<u8>>] -- generated,
+    consistent, the model's example [5u8] is an instance, the reader refuses it (fuel); (2) a struct
+    field called [__ignore]; (3) the empty string literal inside the scope *)
+Theorem C14_reader_scope_clauses_needed :
+  (exists (r : registry) (s : settings) (m : items) (id : N) (ws : words) (ts : tokens),
+     generate r s (types_equal r) = Ok m /\ skeleton_consistentb r s = true /\
+     ConformsTokens.reader_scopeb r s m = false /\ example_rust r s id ws = XOk ts /\ conforms r s m id ts [] /\
+     RunC14.conformsb r (s_root s) (Some (Unparse.pmod_of_items s m)) (ConformsTokens.model_paths r s) id ts = false /\
+     ts = ["5u8"%string]) /\
+  (exists (r : registry) (s : settings) (m : items) (id : N) (ws : words) (ts : tokens),
+     generate r s (types_equal r) = Ok m /\ skeleton_consistentb r s = true /\
+     ConformsTokens.reader_scopeb r s m = false /\ example_rust r s id ws = XOk ts /\ conforms r s m id ts [] /\
+     RunC14.conformsb r (s_root s) (Some (Unparse.pmod_of_items s m)) (ConformsTokens.model_paths r s) id ts = false /\
+     In "__ignore"%string ts) /\
+  (exists (r : registry) (s : settings) (m : items) (id : N) (ts : tokens),
+     generate r s (types_equal r) = Ok m /\ ConformsTokens.reader_scopeb r s m = true /\
+     In ConformsTokens.empty_str_lit ts /\ conforms r s m id ts [] /\
+     RunC14.conformsb r (s_root s) (Some (Unparse.pmod_of_items s m)) (ConformsTokens.model_paths r s) id ts = false).
+Proof. exact ConformsTokensExamples.reader_scope_clauses_needed. Qed.
+Print Assumptions C14_reader_scope_clauses_needed.
+
+(** converse direction on the F15 witness: where [skeleton_consistent] fails, the model's example of
+    the second same-path entry is not an instance AND is refused by the token-level reader on the
+    parse of the model's emission (the reader scope holds on this registry) *)
+Theorem C14_F15_refused_by_reader :
+  exists (r : registry) (s : settings) (m : items) (toks : tokens) (id : N) (ws : words) (ts : tokens),
+    generate r s (types_equal r) = Ok m /\ skeleton_consistentb r s = false /\
+    ConformsTokens.reader_scopeb r s m = true /\ Emit.emit_module s m = Ok toks /\
+    example_rust r s id ws = XOk ts /\ ~ conforms r s m id ts [] /\
+    RunC14.conformsb r (s_root s) (Parse.parse_module toks) (ConformsTokens.model_paths r s) id ts = false.
+Proof. exact ConformsTokensExamples.f15_refused_by_reader. Qed.
+Print Assumptions C14_F15_refused_by_reader.
